@@ -16,16 +16,19 @@
 (*             [sys, time, kind, uid]                                      *)
 (* Creating an output-part sensor also creates the processor it observes   *)
 (* (kind "qproc").  An asset's name is its kind, so names are shared.      *)
+(* A "builder" is a user-defined Asset whose initialize() creates a buffer: *)
+(* during the first run's initialisation loop, or on the spot when it is    *)
+(* itself created while the simulation is already initialised.              *)
 (***************************************************************************)
 EXTENDS Integers, Sequences, FiniteSets
 
 Kinds == {"source", "handler", "processor", "buffer", "gate", "batcher", "sink",
-          "maintainer", "scheduler", "psensor", "qsensor", "cms"}
+          "maintainer", "scheduler", "psensor", "qsensor", "cms", "builder"}
 ClassOf(k) == CASE k = "source" -> "Source" [] k = "handler" -> "PartHandler" [] k = "processor" -> "PartProcessor"
                 [] k = "qproc" -> "PartProcessor" [] k = "buffer" -> "Buffer" [] k = "gate" -> "DecisionGate"
                 [] k = "batcher" -> "PartBatcher" [] k = "sink" -> "Sink" [] k = "maintainer" -> "Maintainer"
                 [] k = "scheduler" -> "ActionScheduler" [] k = "psensor" -> "PeriodicSensor"
-                [] k = "qsensor" -> "OutputPartSensor" [] OTHER -> "Cms"
+                [] k = "qsensor" -> "OutputPartSensor" [] k = "builder" -> "Builder" [] OTHER -> "Cms"
 Handlers == {"Source", "PartHandler", "PartProcessor", "Buffer", "PartBatcher", "Sink"}
 IsA(c, super) == CASE super = "Asset" -> TRUE
                    [] super = "PartFlowController" -> c \in Handlers \cup {"DecisionGate"}
@@ -38,9 +41,10 @@ InitL == [nsys |-> 0, inited |-> <<>>, now |-> <<>>, assets |-> <<>>, pend |-> {
 
 NewSys(L) == [L EXCEPT !.nsys = @ + 1, !.inited = Append(@, FALSE), !.now = Append(@, 0)]
 
-Expand(k) == IF k = "qsensor" THEN <<"qproc", "qsensor">> ELSE <<k>>
-NewAssets(L, k) == [i \in DOMAIN Expand(k) |->
-                      [kind |-> Expand(k)[i], sys |-> L.nsys, inits |-> IF L.inited[L.nsys] THEN 1 ELSE 0]]
+Expand(L, k) == IF k = "qsensor" THEN <<"qproc", "qsensor">>
+                ELSE IF k = "builder" /\ L.inited[L.nsys] THEN <<"builder", "buffer">> ELSE <<k>>
+NewAssets(L, k) == [i \in DOMAIN Expand(L, k) |->
+                      [kind |-> Expand(L, k)[i], sys |-> L.nsys, inits |-> IF L.inited[L.nsys] THEN 1 ELSE 0]]
 
 (* Asset.__init__ / System.add_asset: needs a system; registers with the latest; *)
 (* initialised on the spot when that system's simulation has been initialised    *)
@@ -54,9 +58,13 @@ SchedLate(L, dt, k) ==
 (* System.simulate, first half: only the latest system; assets initialised once *)
 SimBegin(L, s) ==
     IF s # L.nsys THEN [L |-> L, out |-> "error"]
-    ELSE [L |-> [L EXCEPT !.inited[s] = TRUE,
+    ELSE LET first == ~L.inited[s]
+             \* what the builders of this system create while the initialisation loop runs: reached by the same loop
+             built == SelectSeq(L.assets, LAMBDA a : first /\ a.sys = s /\ a.kind = "builder")
+             kids == [i \in DOMAIN built |-> [kind |-> "buffer", sys |-> s, inits |-> 1]] IN
+         [L |-> [L EXCEPT !.inited[s] = TRUE,
                           !.assets = [i \in DOMAIN @ |->
-                                         IF @[i].sys = s /\ ~L.inited[s] THEN [@[i] EXCEPT !.inits = @ + 1] ELSE @[i]]],
+                                         IF @[i].sys = s /\ first THEN [@[i] EXCEPT !.inits = @ + 1] ELSE @[i]] \o kids],
           out |-> "ok"]
 
 (* a pending creation event fires inside the run of system e.sys *)
@@ -65,8 +73,8 @@ LateCreate(L, e) == Create([L EXCEPT !.pend = @ \ {e}, !.now[e.sys] = e.time], e
 Matches(L, i, s, f) ==
     LET a == L.assets[i] IN
     /\ a.sys = s
-    /\ (f.name = "" \/ f.name = a.kind)
-    /\ (f.id = 0 \/ f.id = i)
+    /\ (f.name = "" \/ f.name = a.kind)        \* "<empty>": the empty string given as a name - no asset has it
+    /\ (f.id = 0 \/ f.id = i)                 \* -1: the id 0 given - no asset has it
     /\ (f.type = "" \/ f.type = ClassOf(a.kind))
     /\ (f.subtype = "" \/ IsA(ClassOf(a.kind), f.subtype))
 Find(L, s, f) == {i \in DOMAIN L.assets : Matches(L, i, s, f)}
